@@ -4,8 +4,6 @@ mod builder;
 mod call_frame;
 mod exception_handler;
 
-use crate::constants::UNDEFINED_ARRAY;
-
 use self::{call_frame::CallFrame, exception_handler::ExceptionHandler};
 use laythe_core::{
   constants::SCRIPT,
@@ -136,10 +134,9 @@ impl Fiber {
     let mut allocator = context.gc();
 
     // Create stack and assign fun to first slot
-    let mut stack = UniqueVector::new(allocator.manage(
-      VecBuilder::new(&UNDEFINED_ARRAY[0..stack_count], stack_count),
-      context,
-    ));
+    let undefined = vec![VALUE_UNDEFINED; stack_count];
+    let mut stack =
+      UniqueVector::new(allocator.manage(VecBuilder::new(&undefined, stack_count), context));
 
     stack[0] = val!(fun);
     allocator.push_root(stack);
@@ -607,10 +604,9 @@ impl Fiber {
     let mut allocator = context.gc();
 
     // Create the stack
-    let mut stack = UniqueVector::new(allocator.manage(
-      VecBuilder::new(&UNDEFINED_ARRAY[0..stack_count], stack_count),
-      context,
-    ));
+    let undefined = vec![VALUE_UNDEFINED; stack_count];
+    let mut stack =
+      UniqueVector::new(allocator.manage(VecBuilder::new(&undefined, stack_count), context));
     allocator.push_root(stack);
 
     // Assign the frame to the start of the stack and write in the fun
